@@ -121,6 +121,40 @@ def preFp (a : Arch) (os : Os) (mask : Nat) (mem : Mem) : Nat → Nat → List E
   | sp, fp, e :: rest =>
     mem.inRange sp && linkFp a os mask mem sp fp e && preFp a os mask mem e.sp (e.fp.getD 0) rest
 
+/-! ### the generator's frame-pointer layout on x86-64, as a function
+
+  The Rust generator of the `chain` engine (`gen_chain`, technique `fp`) lays a frame-pointer chain out
+  as follows: stack words `w[0..]` at `base + 8 i`; the context has `rsp = addr s0`, `rbp = addr f0`;
+  for every call `(gap, ret)` a record `w[f] = addr f'`, `w[f+1] = ret` with `f' = f + 2 + gap`; the
+  outermost record `(0, 0)` and `1 + tail` zero words after it; every other word 0. `chain layout fp`
+  (Walk.lean) evaluates it, the engine compares it with the generated stack and chain; `preFp` is
+  PROVED of it for all parameters (MdProofs/Lemmas/WalkMixedLayout.lean, `preFp_layout`). -/
+
+/-- little-endian bytes of an 8-byte word -/
+def le8 (v : Nat) : List UInt8 := (List.range 8).map fun i => UInt8.ofNat (v / 256 ^ i % 256)
+
+/-- the stack memory with the words `ws` at `base`, `base + 8`, … -/
+def wordsMem (base : Nat) (ws : List Nat) : Mem := { base := base, bytes := (ws.flatMap le8).toArray }
+
+/-- address of stack word `i` -/
+def wAddr (base i : Nat) : Nat := base + 8 * i
+
+/-- the stack words from index `f` (where the callee's frame pointer points) on -/
+def fpTail (base : Nat) (tail : Nat) : Nat → List (Nat × Nat) → List Nat
+  | _, [] => [0, 0] ++ List.replicate (1 + tail) 0
+  | f, (gap, ret) :: rest =>
+    [wAddr base (f + 2 + gap), ret] ++ List.replicate gap 0 ++ fpTail base tail (f + 2 + gap) rest
+
+/-- all stack words: zeros below the first record -/
+def fpWords (base f0 tail : Nat) (calls : List (Nat × Nat)) : List Nat :=
+  List.replicate f0 0 ++ fpTail base tail f0 calls
+
+/-- the expected chain -/
+def fpChain (base : Nat) : Nat → List (Nat × Nat) → List Exp
+  | _, [] => []
+  | f, (gap, ret) :: rest =>
+    { ret := ret, sp := wAddr base (f + 2), fp := some (wAddr base (f + 2 + gap)) } :: fpChain base (f + 2 + gap) rest
+
 /-! ### scanning -/
 
 /-- one scanned frame: `k` junk words (small integers that are not valid instructions) above the
